@@ -4,6 +4,7 @@
   reader's side of each (what `SVG.parse` makes of the written attribute).
 -/
 import SvgVerif.Model.Geom
+import SvgVerif.Model.Color
 namespace Svg.Write
 
 section
@@ -31,4 +32,28 @@ def readDim (dflt : K) : Option K → K
   | none => dflt
 
 end
+
+/-! ### paint ("Write Stroke", "Write Fill": svgelements.py:9779-9811) -/
+
+/-- one digit of `%02x` -/
+def hexChar (d : Nat) : Char := if d < 10 then Char.ofNat (48 + d) else Char.ofNat (87 + d)
+
+/-- what the writer puts into the element for one paint: the text of the `fill`/`stroke` attribute
+    (`none`: not written) and the number whose `str` becomes `fill-opacity`/`stroke-opacity`
+    (`none`: not written) -/
+structure PaintOut (K : Type) where
+  text : Option String
+  opacity : Option K
+
+/-- A paint is `None` (nothing written), a colour without value (`none`), or a packed RGBA value:
+    `str(abs(colour))` is the `#rrggbb` of the opaque colour, and the opacity `alpha / 255.0` is
+    written unless it is `1.0`. -/
+def writtenPaint {K : Type} [Div K] [NatCast K] (p : Option (Option Nat)) : PaintOut K :=
+  match p with
+  | none => ⟨none, none⟩
+  | some none => ⟨some "none", none⟩
+  | some (some v) =>
+    ⟨some (String.ofList ('#' :: (Color.hexDigits (Color.setAlpha v 255)).map hexChar)),
+     if Color.alpha v = 255 then none else some (((Color.alpha v : Nat) : K) / ((255 : Nat) : K))⟩
+
 end Svg.Write
